@@ -1,6 +1,7 @@
 package main
 
 import (
+	"strconv"
 	"fmt"
 	"go/token"
 	"go/types"
@@ -146,6 +147,16 @@ func paramTypes(sig *types.Signature) []types.Type {
 	return ts
 }
 
+// dummyResults gives typed placeholders for result, result0.. so that modifies items may name the heaps of what a
+// function returns (only the types matter when a modifies item is resolved to heap names).
+func dummyResults(sig *types.Signature) []Val {
+	var out []Val
+	for i := 0; i < sig.Results().Len(); i++ {
+		out = append(out, Val{S: "0", T: sig.Results().At(i).Type()})
+	}
+	return out
+}
+
 // modHeapNames resolves one modifies item to heap names.
 func (x *Exec) modItemHeaps(item string, env *Env) []string {
 	if strings.HasPrefix(item, "(") {
@@ -223,6 +234,7 @@ func (x *Exec) modHeapNames(item string, callee *ssa.Function, c *ssa.CallCommon
 			env.vars[fv.Name()] = Val{S: "0", T: pt.Elem()}
 		}
 	}
+	env.results = dummyResults(sig)
 	var out []string
 	func() {
 		defer func() {
@@ -320,6 +332,10 @@ func (x *Exec) applyContract(st *State, fc *FuncContract, key string, callee *ss
 						panic(r)
 					}
 				}()
+				if env.results == nil {
+					env.results = dummyResults(sig)
+					defer func() { env.results = nil }()
+				}
 				names = append(names, x.modItemHeaps(m, env)...)
 			}()
 		}
@@ -368,9 +384,14 @@ func (x *Exec) applyContract(st *State, fc *FuncContract, key string, callee *ss
 		}
 	}
 	if len(fc.Focus) == 0 { // focused contracts prove "focus => post"; nothing may be assumed from them at a call
+		nb := len(st.lines)
 		for _, e := range fc.Ensures {
+			if pathLocalSX(e.SX) {
+				continue // talks about the callee's own execution (call log, locals): not usable by callers
+			}
 			x.assume(st, x.evalBool(st, e.SX, env))
 		}
+		x.consistencyAfter(st, fmt.Sprintf("post-consistent:%s@%s", shortKey(key), x.L.pos(pos)), fc.Src, nb)
 	}
 	return res
 }
@@ -427,7 +448,100 @@ func (x *Exec) call(st *State, i *ssa.Call) bool {
 	} else {
 		fv = x.get(st, c.Value)
 	}
-	return x.callCommon(st, c, i, i.Pos(), args, fv)
+	depth := len(st.stack)
+	top := st.top()
+	var pre *HeapSnap
+	if depth == 1 && x.fc != nil && len(x.fc.Asserts) > 0 && !x.frameMode {
+		hs := make(map[string]string, len(st.heaps))
+		for k, v := range st.heaps {
+			hs[k] = v
+		}
+		pre = &HeapSnap{heaps: hs, epoch: st.epoch, now: st.now}
+	}
+	ok := x.callCommon(st, c, i, i.Pos(), args, fv)
+	if ok && len(st.stack) == depth && pre != nil {
+		x.ghostAsserts(st, top, c, i.Pos(), pre)
+	}
+	return ok
+}
+
+// ghostAsserts proves, then assumes, the contract's `assert after:<callee-substring> <name> <sx>` clauses at the
+// program point right after a matching call of the function under verification (a ghost assert: it guides the
+// solver with an intermediate fact and adds no assumption, because the fact is itself an obligation).
+func (x *Exec) ghostAsserts(st *State, fr *Frame, c *ssa.CallCommon, pos token.Pos, pre *HeapSnap) {
+	name := ""
+	if c.IsInvoke() {
+		name = c.Method.Name()
+	} else if sc := c.StaticCallee(); sc != nil {
+		name = x.funcKeyOf(sc)
+	} else {
+		name = c.Value.Name()
+	}
+	var labels []string
+	for l := range x.fc.Asserts {
+		labels = append(labels, l)
+	}
+	sort.Strings(labels)
+	for _, l := range labels {
+		sub, ok := strings.CutPrefix(l, "after:")
+		if !ok {
+			continue
+		}
+		// after:<callee-substring>[#n]: n = the n-th matching call on this path (1-based)
+		nth := 0
+		if k := strings.LastIndex(sub, "#"); k >= 0 {
+			if n, err := strconv.Atoi(sub[k+1:]); err == nil {
+				nth, sub = n, sub[:k]
+			}
+		}
+		if !strings.Contains(name, sub) {
+			continue
+		}
+		if nth > 0 {
+			cnt := 0
+			for _, k := range st.callLog {
+				if strings.Contains(k, sub) {
+					cnt++
+				}
+			}
+			if cnt != nth {
+				continue
+			}
+		}
+		if x.assertHit == nil {
+			x.assertHit = map[string]bool{}
+		}
+		for _, cl := range x.fc.Asserts[l] {
+			cl := cl
+			func() {
+				// a clause that mentions a local not yet bound at this call site is skipped here; a clause that is
+				// evaluable nowhere is an error (reported by verifyFunc)
+				defer func() {
+					if r := recover(); r != nil {
+						if _, ok := r.(specError); ok {
+							return
+						}
+						panic(r)
+					}
+				}()
+				env := x.specEnv(st, fr, nil)
+				ord := -1
+				for o := range fr.loopSnap {
+					if o > ord {
+						ord = o
+					}
+				}
+				if snap := fr.loopSnap[ord]; snap != nil {
+					env.lheaps, env.lepoch, env.lnow, env.llocals = snap.heaps, snap.epoch, snap.now, snap.locals
+				}
+				env.cheaps, env.cepoch, env.cnow = pre.heaps, pre.epoch, pre.now
+				t := x.evalBool(st, cl.SX, env)
+				x.assertHit[l+"/"+cl.Name] = true
+				x.emit(st, "assert", fmt.Sprintf("%s/assert:%s@%s", x.funcKeyOf(x.fn), cl.Name, x.L.pos(pos)), cl, t)
+				x.assume(st, t)
+			}()
+		}
+	}
 }
 
 // setRes binds a call result if the call has a result-carrying instruction.
@@ -496,7 +610,7 @@ func (x *Exec) callCommon(st *State, c *ssa.CallCommon, i ssa.Value, pos token.P
 			return true
 		}
 		if ms != nil && ms.Mode == "dispatch" {
-			x.dispatch(st, c, i, recv, args, sig)
+			x.dispatch(st, c, i, recv, args, sig, pos)
 			return true
 		}
 		x.abstr["invoke "+typeStr(c.Value.Type())+"."+c.Method.Name()]++
@@ -548,6 +662,7 @@ func (x *Exec) callCommon(st *State, c *ssa.CallCommon, i ssa.Value, pos token.P
 	}
 	fc, key := x.contractOf(callee)
 	st.calls[key]++
+	st.callLog = append(st.callLog, key)
 	sig := callee.Signature
 	if key == "slices.ContainsFunc" && len(args) == 2 {
 		if r, ok := x.containsFuncModel(st, args[0], args[1]); ok {
@@ -645,16 +760,20 @@ func (x *Exec) analyzed(fn *ssa.Function) bool {
 	return false
 }
 
-func (x *Exec) dispatch(st *State, c *ssa.CallCommon, i ssa.Value, recv Val, args []Val, sig *types.Signature) {
+func (x *Exec) dispatch(st *State, c *ssa.CallCommon, i ssa.Value, recv Val, args []Val, sig *types.Signature, pos token.Pos) {
 	impls := x.implementers(c.Value.Type())
 	rt := sig.Results()
-	var res Val
-	if rt.Len() == 1 {
-		res = x.havocVal(st, rt.At(0).Type(), "disp")
-	} else if rt.Len() > 1 {
-		res = x.havocVal(st, rt, "disp")
+	type target struct {
+		t    types.Type
+		tag  int
+		m    *ssa.Function
+		fc   *FuncContract
+		key  string
+		env  *Env
+		mods map[string]bool
 	}
 	var tags []string
+	var targets []*target
 	for _, t := range impls {
 		tag := x.so.tagOf(t)
 		tags = append(tags, fmt.Sprintf("(= (i.tag %s) %d)", recv.S, tag))
@@ -679,7 +798,6 @@ func (x *Exec) dispatch(st *State, c *ssa.CallCommon, i ssa.Value, recv Val, arg
 			continue
 		}
 		fc.Used = true
-		// evaluate the implementation's postconditions under the tag guard
 		env := &Env{vars: map[string]Val{}, st: st, heaps: st.heaps, epoch: st.epoch, now: st.now, oheaps: st.heaps, oepoch: st.epoch, onow: st.now}
 		if p := fnPkg(m); p != nil {
 			env.pkg = p.Path()
@@ -696,19 +814,110 @@ func (x *Exec) dispatch(st *State, c *ssa.CallCommon, i ssa.Value, recv Val, arg
 				env.vars[n] = all[k]
 			}
 		}
+		targets = append(targets, &target{t: t, tag: tag, m: m, fc: fc, key: key, env: env})
+	}
+	// preconditions of every possible target, under its tag
+	for _, tg := range targets {
+		for _, r := range tg.fc.Requires {
+			t := x.evalBool(st, r.SX, tg.env)
+			goal := fmt.Sprintf("(=> (= (i.tag %s) %d) %s)", recv.S, tg.tag, t)
+			x.emit(st, "pre", fmt.Sprintf("%s/dispatch:%s@%s:%s", x.funcKeyOf(x.fn), shortKey(tg.key), x.L.pos(pos), r.Name), Clause{Src: r.Src, Props: tg.fc.Props}, goal)
+			x.assume(st, goal)
+		}
+	}
+	// frame: the union of what the targets may modify is havocked; a target that does not modify a heap keeps it
+	oh := make(map[string]string, len(st.heaps))
+	for k, v := range st.heaps {
+		oh[k] = v
+	}
+	oepoch, onow := st.epoch, st.now
+	union := map[string]bool{}
+	modAll := false
+	for _, tg := range targets {
+		tg.mods = map[string]bool{}
+		if tg.fc.ModAll {
+			modAll = true
+			continue
+		}
+		for _, mi := range tg.fc.Modifies {
+			func() {
+				defer func() {
+					if r := recover(); r != nil {
+						if se, ok := r.(specError); ok {
+							x.errs = append(x.errs, fmt.Sprintf("%s: modifies of %s: %s", x.funcKeyOf(x.fn), tg.key, se.msg))
+							return
+						}
+						panic(r)
+					}
+				}()
+				tg.env.results = dummyResults(tg.m.Signature)
+				for _, hn := range x.modItemHeaps(mi, tg.env) {
+					tg.mods[hn] = true
+					union[hn] = true
+				}
+			}()
+		}
+		tg.env.results = nil
+	}
+	type hv struct{ name, sort, old string }
+	var havocked []hv
+	if modAll {
+		x.havocAll(st)
+	} else {
+		var names []string
+		for n := range union {
+			names = append(names, n)
+		}
+		sort.Strings(names)
+		for _, n := range names {
+			so := x.heapSo[n]
+			old := ""
+			if so != "" {
+				old = heapSymIn(x, oh, oepoch, n, so)
+			}
+			x.havocHeap(st, n)
+			havocked = append(havocked, hv{n, so, old})
+		}
+	}
+	if modAll || len(union) > 0 {
+		x.advanceNow(st)
+	}
+	var res Val
+	if rt.Len() == 1 {
+		res = x.havocVal(st, rt.At(0).Type(), "disp")
+	} else if rt.Len() > 1 {
+		res = x.havocVal(st, rt, "disp")
+	}
+	nb := len(st.lines)
+	for _, tg := range targets {
+		env := tg.env
+		env.heaps, env.epoch, env.now = st.heaps, st.epoch, st.now
+		env.oheaps, env.oepoch, env.onow = oh, oepoch, onow
 		if rt.Len() == 1 {
 			env.results = []Val{res}
 		} else {
 			env.results = res.Tup
 		}
-		for _, e := range fc.Ensures {
-			x.assume(st, fmt.Sprintf("(=> (= (i.tag %s) %d) %s)", recv.S, tag, x.evalBool(st, e.SX, env)))
+		guard := fmt.Sprintf("(= (i.tag %s) %d)", recv.S, tg.tag)
+		if !modAll && !tg.fc.ModAll {
+			for _, h := range havocked {
+				if !tg.mods[h.name] && h.sort != "" {
+					x.assume(st, fmt.Sprintf("(=> %s (= %s %s))", guard, heapSymIn(x, st.heaps, st.epoch, h.name, h.sort), h.old))
+				}
+			}
+		}
+		for _, e := range tg.fc.Ensures {
+			if pathLocalSX(e.SX) {
+				continue
+			}
+			x.assume(st, fmt.Sprintf("(=> %s %s)", guard, x.evalBool(st, e.SX, env)))
 		}
 	}
 	if len(tags) > 0 {
 		x.assume(st, "(or "+strings.Join(tags, " ")+" false)")
 		x.assum["dynamic types of "+typeStr(c.Value.Type())+" limited to its implementations in the loaded module"] = true
 	}
+	x.consistencyAfter(st, fmt.Sprintf("post-consistent:dispatch %s.%s@%s", typeStr(c.Value.Type()), c.Method.Name(), x.L.pos(pos)), "contracts of the implementations", nb)
 	if rt.Len() > 0 {
 		setRes(st.top(), i, res)
 	}
@@ -997,4 +1206,22 @@ func (x *Exec) closureBindings(st *State, fn *ssa.Function) []Val {
 		}
 	}
 	return out
+}
+
+
+// pathLocalSX: the clause mentions the call log or local variables of the function's own execution.
+func pathLocalSX(sx *SX) bool {
+	if !sx.IsL {
+		return false
+	}
+	switch sx.Head() {
+	case "dyn", "local", "calls", "callarg", "callres", "atloop", "athead":
+		return true
+	}
+	for _, c := range sx.List {
+		if pathLocalSX(c) {
+			return true
+		}
+	}
+	return false
 }
